@@ -52,21 +52,29 @@ impl anstyle_wincon::WinconStream for Console {
         }
         let mut n = data.len();
         if s.scripted {
-            let mut menu: Vec<Result<usize, ErrorKind>> = vec![Ok(data.len())];
+            // errors come as plain kinds and as raw OS error codes (6 = "invalid handle" on Windows, ENXIO here; 32 = EPIPE)
+            let mut menu: Vec<Result<usize, Result<ErrorKind, i32>>> = vec![Ok(data.len())];
             for k in 0..=2usize {
                 if k < data.len() {
                     menu.push(Ok(k));
                 }
             }
-            for k in [ErrorKind::Interrupted, ErrorKind::WouldBlock, ErrorKind::Other] {
-                menu.push(Err(k));
+            for k in [ErrorKind::Interrupted, ErrorKind::WouldBlock, ErrorKind::Other, ErrorKind::BrokenPipe] {
+                menu.push(Err(Ok(k)));
+            }
+            for code in [6, 32] {
+                menu.push(Err(Err(code)));
             }
             let c = s.script.choose(menu.len());
             match menu[c] {
                 Ok(k) => n = k,
-                Err(k) => {
-                    s.errors.push(k);
-                    return Err(io::Error::new(k, "injected"));
+                Err(e) => {
+                    let err = match e {
+                        Ok(k) => io::Error::new(k, "injected"),
+                        Err(code) => io::Error::from_raw_os_error(code),
+                    };
+                    s.errors.push(err.kind());
+                    return Err(err);
                 }
             }
         }
